@@ -666,7 +666,13 @@ class Executor:
         raise Unsupported('** with non-constant exponent')
     else:
       raise Unsupported('binop ' + type(op).__name__)
-    return [(p, self.wrapnum(t))]
+    res = self.wrapnum(t)
+    lt_, rt_ = getattr(l, 'tt', None), getattr(r, 'tt', None)
+    if lt_ or rt_:
+      from . import ttype as TT
+      opn = 'sub' if isinstance(op, ast.Sub) else 'add' if isinstance(op, ast.Add) else 'other'
+      res.tt = TT.arith(opn, lt_ or TT.INV, rt_ or TT.INV)
+    return [(p, res)]
 
   # ------------------------------------------------------------------------------------- attributes
   def ev_Attribute(self, e, p, module):
